@@ -160,6 +160,40 @@ def bcast_body(ctx, case):
     ctx.close(got, per, 1e-12, "%s with one Cn2 profile and a stack of profiles == loop over the stack" % case["which"], name="broadcast " + case["which"])
 
 
+@st.composite
+def shared_cases(draw):
+    rank = draw(st.integers(2, 3))
+    shape = tuple(draw(st.integers(1, 6)) for _ in range(rank))
+    axis = draw(st.integers(-rank, rank - 1))
+    rng = gen.np_rng(draw(st.integers(0, 2**32 - 1)))
+    return {"cn2": np.exp(rng.uniform(math.log(1e-17), math.log(1e-12), size=shape)), "vec": np.exp(rng.uniform(math.log(5), math.log(2e4), size=shape[axis])),
+            "axis": axis, "which": draw(st.sampled_from(["coherenceTime", "isoplanaticAngle", "rytov_variance"])), "lam": draw(st.one_of(st.none(), gen.logfloat(0.3e-6, 25e-6))),
+            "stack_is": draw(st.sampled_from(["cn2", "cn2", "second"]))}
+
+
+def shared_body(ctx, case):
+    """A table of profiles (time x layer, or layer x time, ...) with ONE altitude / wind vector for all of them - the form in
+    which SCIDAR / MASS / reference profiles come.  axis names the layer axis of the table; the vector lies along it."""
+    ac, _, _ = A()
+    f = getattr(ac, case["which"])
+    tab, vec, axis = case["cn2"], case["vec"], case["axis"]
+    kw = {} if case["lam"] is None else {"lamda": case["lam"]}
+    last = axis % tab.ndim == tab.ndim - 1
+    ctx.case(case, nontrivial=not last, classes=[case["which"], "layer_axis_last" if last else "layer_axis_not_last", "rank%d" % tab.ndim,
+                                                 "coincident_lengths" if (not last and tab.shape[-1] == tab.shape[axis]) else "distinct_lengths", "table_is_" + case["stack_is"]])
+    flat = np.moveaxis(tab, axis, -1).reshape(-1, tab.shape[axis])
+    if case["stack_is"] == "cn2":
+        got = np.asarray(f(tab.copy(), vec.copy(), axis=axis, **kw))
+        per = np.array([f(flat[i].copy(), vec.copy(), **kw) for i in range(flat.shape[0])])
+    else:
+        # one Cn2 profile, a table of wind / altitude profiles
+        got = np.asarray(f(vec.copy() * 1e-17, tab.copy() * 1e13, axis=axis, **kw))
+        per = np.array([f(vec.copy() * 1e-17, flat[i].copy() * 1e13, **kw) for i in range(flat.shape[0])])
+    want_shape = tuple(s_ for i, s_ in enumerate(tab.shape) if i != axis % tab.ndim)
+    ctx.require(got.shape == want_shape, "%s(table %s, vector (%d,), axis=%d): shape %s, expected %s" % (case["which"], tab.shape, len(vec), axis, got.shape, want_shape))
+    ctx.close(got.reshape(-1), per, 1e-12, "%s(table of profiles, one shared vector, axis=%d) == loop over the profiles" % (case["which"], axis), name="shared vector " + case["which"])
+
+
 def profile_body(ctx, case):
     ac, _, _ = A()
     cn2, h, v, axis, lam = case["cn2"], case["h"], case["v"], case["axis"], case["lam"]
@@ -274,6 +308,7 @@ LAWS = [
     given_law("conversions", conv_cases(), conv_body, {"quick": 1500, "thorough": 20000}, shards={"quick": 3, "thorough": 16}),
     given_law("slopes", slope_cases(), slope_body, {"quick": 500, "thorough": 7500}, shards={"quick": 3, "thorough": 16}),
     given_law("profiles", profile_cases(), profile_body, {"quick": 800, "thorough": 12500}, shards={"quick": 3, "thorough": 16}),
+    given_law("profiles_shared_vector", shared_cases(), shared_body, {"quick": 400, "thorough": 2500}, shards={"quick": 2, "thorough": 16}),
     given_law("profiles_broadcast", bcast_cases(), bcast_body, {"quick": 400, "thorough": 2500}, shards={"quick": 2, "thorough": 16}),
     given_law("single_layer", layer_cases(), layer_body, {"quick": 800, "thorough": 12500}, shards={"quick": 3, "thorough": 16}),
     given_law("photometry", photo_cases(), photo_body, {"quick": 1000, "thorough": 15000}, shards={"quick": 3, "thorough": 16}),
